@@ -286,6 +286,11 @@ def c12(op, obs, before, after):
                 v.append('consumer %d has project/user %r, expected %r' % (c['uuid'], (row[1], row[2]), (proj, user)))
             if v_ >= 38 and row[3] != c['type']:
                 v.append('consumer %d has type %r, expected %r' % (c['uuid'], row[3], c['type']))
+            # a write below 1.38 names no consumer type: the type of an EXISTING consumer stays what it was
+            brow = {k[0]: k for k in before[T_CONS]}.get(c['uuid'])
+            if v_ < 38 and brow is not None and row[3] != brow[3]:
+                v.append('a write at 1.%d (no consumer type in the request) changed the type of consumer %d from %r to %r'
+                         % (v_, c['uuid'], brow[3], row[3]))
     return v
 
 
